@@ -5,3 +5,5 @@ git -C /repo apply "$P" || { echo "PATCH DOES NOT APPLY"; exit 3; }
 cd /verif && ./check "$ID" --tier "$TIER" 2>&1 | grep -v conda | grep -E "^(OK|VIOLATION|KNOWN|  \[)" | cut -c1-420
 git -C /repo checkout -- . 
 git -C /verif checkout -- evidence 2>/dev/null
+# regenerate the translated Lean from the restored tree, so /verif/lean/Gca/Generated never keeps a mutated version
+( cd /verif/extract && X=$(mktemp -d) && go build -o $X/extract . && VERIF_REPO=/repo $X/extract /verif/lean/Gca/Generated >/dev/null 2>&1; rm -rf $X )
